@@ -16,20 +16,26 @@
                     5 Assert; 6 Clear returned value; 7 IsAsserted returned value)
               ws    sum over the wakers of class(w.s)*4^w (0 nil, 1 the sleeper, 2 asserted)
               wg    class of waitingG (0, 1 preparingG, 2 a G)
-              sh lo al   sharedList / localList / allWakers as decimal digits of the waker ids
-                    (head first); al = -1 while Done executes
+              sh lo   sharedList / localList as decimal digits of the waker ids (head first)
+              al      1 + allWakers likewise, or 0 while Done executes (Done reuses the links)
      hung     a granted step (or a readied sleeper) did not come back within the watchdog time
      panicked some client goroutine panicked
      maximal  the run ended because no goroutine was enabled in the real state
    [Stress] = one UNCONTROLLED stress run (search aid; not compared with the model). *)
 From Coq Require Import ZArith Bool List Arith.
+From Coq Require Export Uint63.
 From NP Require Import Model.Sleep.
 Import ListNotations.
 Open Scope Z_scope.
 
+(* [sched] and [flatobs] are written as primitive 63-bit integers ([...]%uint63): their literals
+   are parsed natively, which makes the case files about three times cheaper to load than with Z
+   literals; they are converted to Z before anything is done with them *)
 Inductive case :=
-| Run (nw : Z) (progs : list (list Z)) (sched : list Z) (flatobs : list Z) (hung panicked maximal : bool)
+| Run (nw : Z) (progs : list (list Z)) (sched63 : list int) (flatobs63 : list int) (hung panicked maximal : bool)
 | Stress (wakers iters extra : Z) (completed : bool).
+
+Definition zs (l : list int) : list Z := map Uint63.to_Z l.
 
 Definition ob := (Z * Z * Z * Z * Z * Z * Z * Z)%type.
 
@@ -126,7 +132,7 @@ Definition in_done (p : pc) : bool :=
 Definition model_ob (st : state) (nw : nat) (t : nat) (evs : list event) : ob :=
   (pos_of st t, pos_of st 0, retv_of evs, ws_pack st nw, gclass (wg st),
    ids_pack st (shared st), ids_pack st (local st),
-   if in_done (pc_of st 0) then -1 else ids_pack st (allw st)).
+   if in_done (pc_of st 0) then 0 else 1 + ids_pack st (allw st)).
 
 Definition ob_eqb (a b : ob) : bool :=
   match a, b with
@@ -159,7 +165,8 @@ Fixpoint none_enabled (st : state) (n : nat) : bool :=
    after every step, and agrees that nothing is enabled at the end of a maximal run *)
 Definition corr (c : case) : Z :=
   match c with
-  | Run nw progs sched fobs hung panicked maximal =>
+  | Run nw progs sched63 fobs63 hung panicked maximal =>
+      let sched := zs sched63 in let fobs := zs fobs63 in
       if hung || panicked then 1 else
       match progs_of progs with
       | None => 1
@@ -349,7 +356,8 @@ Definition end_ok (m : mst) : bool :=
 
 Definition spec (c : case) : Z :=
   match c with
-  | Run nw progs sched fobs hung panicked maximal =>
+  | Run nw progs sched63 fobs63 hung panicked maximal =>
+      let sched := zs sched63 in let fobs := zs fobs63 in
       if hung || panicked then 1 else
       let m := spec_final (Z.to_nat nw) progs sched (obs_of fobs) in
       if m_bad m then 1
@@ -364,7 +372,8 @@ Definition spec (c : case) : Z :=
    woken before; 4 = Done was executed; 5 = uncontrolled stress run *)
 Definition tag (c : case) : Z :=
   match c with
-  | Run nw progs sched fobs hung panicked maximal =>
+  | Run nw progs sched63 fobs63 hung panicked maximal =>
+      let sched := zs sched63 in let fobs := zs fobs63 in
       match sched with
       | [] => 0
       | _ =>
